@@ -3,7 +3,7 @@
    every number of iterations: once the initial evaluation is logged, the reported best is a point at which a real call was
    made, with the energy that call returned (or a top value: outside the box), and it satisfies the constraints. *)
 From Coq Require Import List ZArith Bool Lia.
-From MV Require Import Common.Num Common.Order Core.Machine Core.Machine_Proofs Core.DE_Proofs Core.NM_Proofs Core.Powell.
+From MV Require Import Common.Num Common.Order Core.Machine Core.Machine_Proofs Core.Stop_Proofs Core.DE_Proofs Core.NM_Proofs Core.Powell.
 Import ListNotations.
 Open Scope Z_scope.
 
@@ -260,3 +260,67 @@ Section PowellHistory.
     split; [intros K; congruence|]. split; [lia|intros K; congruence].
   Qed.
 End PowellHistory.
+
+
+(* C05 for Powell: Solve always returns.  Every _Step for which the extrapolated point is given (the real code always computes it)
+   makes the energy history one entry longer - by a step-monitor record or by the decoupled last energy - unless the generation limit
+   is 0, in which case the first Step already reports the stop. *)
+Section PowellSolve.
+  Variable N : Num.
+  Variable inf : T N.
+  Notation sys := (sys N).
+  Notation pw := (pw N).
+  Notation A := (pw_algo N inf).
+
+  Definition G_pw (c : pw) : Prop := (length (pextra_e N c) <= 1)%nat.
+  Definition V_pw (i : pw_in N) : Prop := pdeco N i = None /\ px2 N i <> None.
+
+  Lemma pw_progress s c i : G_pw c -> V_pw i -> maxiter N s <> LAbs 0 ->
+    let r := run_prog inf true s (pw_step N inf s c i) in
+    (S (ehlen N _ _ A s c) <= ehlen N _ _ A (set_stepmon N (fst r) (stepmon N (fst r) ++ snd (snd r))) (fst (snd r)))%nat /\ G_pw (fst (snd r)).
+  Proof.
+    intros HG [_ Hx2] Hnz. cbv zeta.
+    destruct (run_prog_cfg N inf true _ (pw_step N inf s c i) s) as (_ & _ & Hs). cbv zeta in Hs.
+    unfold ehlen, energy_history, G_pw in *. cbn [stepmon set_stepmon a_ehist_extra pw_algo]. rewrite Hs.
+    revert Hs. unfold pw_step. cbv zeta.
+    destruct (stepmon N s) as [|sm0 smr] eqn:Hsm.
+    - cbn [run_prog]. intros _. cbn [fst snd pextra_e].
+      assert (Ez : is_zero_limit (maxiter N s) = false).
+      { destruct (maxiter N s) as [| |n]; try reflexivity. destruct n; try reflexivity. congruence. }
+      rewrite Ez. split; [|exact HG]. cbn [app map length]. lia.
+    - destruct (Nat.eqb (length (sm0 :: smr) + length (pextra_e N c)) 1) eqn:E1.
+      + rewrite (bind_run_t N inf). cbn [run_prog fst snd]. intros _. cbn [pextra_e]. rewrite app_nil_r.
+        apply Nat.eqb_eq in E1. split; [|simpl; lia]. rewrite !app_length, !map_length. cbn [length] in *. lia.
+      + destruct (px2 N i) as [x2|]; [|congruence].
+        cbn [run_prog]. rewrite !(bind_run_t N inf). cbn [run_prog fst snd]. intros _. cbn [pextra_e].
+        split; [|simpl; lia].
+        destruct (pextra_e N c) as [|e0 [|e1 er]]; cbn [length] in *; rewrite ?app_nil_r, !app_length, ?map_length; cbn [length]; try lia.
+        rewrite app_length. cbn [length]. lia.
+  Qed.
+
+  Theorem pw_solve_terminates : forall f s c is dflt mi mf,
+    G_pw c -> Forall V_pw is -> V_pw dflt ->
+    abs_limits N mi mf s -> (0 <= mi)%Z ->
+    (Z.to_nat (mi + 3) <= S f + ehlen N _ _ A s c)%nat ->
+    snd (solve N inf _ _ A (S f) s c is dflt) = true.
+  Proof.
+    intros f s c is dflt mi mf HG His Hd Hl Hmi Hfuel.
+    destruct (Z.eq_dec mi 0) as [E0|Hnz]; [subst mi; apply (solve_terminates_zero N inf _ _ A f s c is dflt mf Hl)|].
+    assert (Hpos : (0 < mi)%Z) by lia.
+    refine (solve_terminates N inf _ _ A G_pw V_pw _ _ _ _ _ _ f s c is dflt mi mf HG His Hd Hl Hpos Hfuel).
+    - intros s0 c0 i HG0 HV Hz. apply pw_progress; assumption.
+    - (* Finalize moves the pending energy into the step monitor: the history keeps its length *)
+      intros s0 c0 HG0. cbn [a_finalize pw_algo]. unfold pw_finalize, ehlen, energy_history, G_pw in *. cbn [a_ehist_extra pw_algo].
+      destruct (pextra_e N c0) as [|e0 [|e1 er]] eqn:Ee; cbn [length] in HG0; try lia.
+      + cbn [fst snd stepmon set_stepmon]. rewrite Ee, !app_nil_r. apply Nat.le_refl.
+      + destruct (live N s0); cbn [fst snd stepmon set_stepmon pextra_e].
+        * rewrite app_nil_r, map_app, !app_length, !map_length. cbn [length]. lia.
+        * rewrite Ee, !app_nil_r. apply Nat.le_refl.
+    - intros s0 c0 i. cbn [a_decorate pw_algo a_ehist_extra]. unfold pw_decorate. destruct (pdeco N i); reflexivity.
+    - intros s0 c0 i HG0 [Hi _]. cbn [a_decorate pw_algo]. unfold pw_decorate. rewrite Hi. exact HG0.
+    - intros s0 c0 HG0. cbn [a_finalize pw_algo]. unfold pw_finalize, G_pw in *.
+      destruct (pextra_e N c0) eqn:Ee; [cbn [fst]; rewrite Ee; exact HG0|].
+      destruct (live N s0); cbn [fst pextra_e]; [simpl; lia|rewrite Ee; exact HG0].
+    - intros c0 HG0. exact HG0.
+  Qed.
+End PowellSolve.
